@@ -21,11 +21,11 @@ static const char *const scn_names[] = { "default", "pipes+input", "stderr-to-st
 enum { H_DESTROY, H_WAIT, H_ROUNDTRIP, H_DRAIN, H_TERMKILL, H_KILLWAIT, H_RUNEX, NHIST };
 static const char *const hist_names[] = { "destroy", "wait", "roundtrip", "drain", "term-wait-kill", "kill-wait", "run_ex" };
 
-enum { N_MISSING, N_DIRECTORY, N_NOEXEC, N_TOOLONG, N_WD_MISSING, N_WD_FILE, N_PATH_NODIR, N_PATH_ISDIR, N_INPUT_BIG, N_BARE_MISSING, NNAT };
+enum { N_MISSING, N_DIRECTORY, N_NOEXEC, N_TOOLONG, N_WD_MISSING, N_WD_FILE, N_PATH_NODIR, N_PATH_ISDIR, N_INPUT_BIG, N_BARE_MISSING, N_OWN_HANDLE_CLOSED, N_OWN_FILE_CLOSED, NNAT };
 static const char *const nat_names[] = { "missing-program", "directory-as-program", "no-x-bit", "path-too-long", "workdir-missing",
                                          "workdir-is-file", "redirect-path-no-dir", "redirect-path-is-dir", "input-over-pipe-size",
-                                         "bare-name-not-in-PATH" };
-static const int nat_errno[] = { ENOENT, EACCES, EACCES, ENAMETOOLONG, ENOENT, ENOTDIR, ENOENT, EISDIR, EAGAIN, ENOENT };
+                                         "bare-name-not-in-PATH", "stdout-handle-1-closed", "stderr-FILE-closed" };
+static const int nat_errno[] = { ENOENT, EACCES, EACCES, ENAMETOOLONG, ENOENT, ENOTDIR, ENOENT, EISDIR, EAGAIN, ENOENT, EBADF, EBADF };
 
 enum {
   CL_START_FAILED_CLEAN, CL_START_OK_DESPITE_FAULT, CL_START_OK, CL_RESTART_OK, CL_NATURAL, CL_LEDGERS_CLEAN, CL_USER_OBJECTS_INTACT,
@@ -354,6 +354,17 @@ static void body(const struct params *pa)
         sc.o.input.size = 70000;
         break;
       case N_BARE_MISSING: nat_argv[0] = "no-such-program-xyz"; sc.argv = nat_argv; break;
+      /* a stream sent to the descriptor of its own number, which the caller has closed: nothing to install, and nothing else would notice */
+      case N_OWN_HANDLE_CLOSED:
+        close(1);
+        sc.o.redirect.out.type = REPROC_REDIRECT_HANDLE;
+        sc.o.redirect.out.handle = 1;
+        break;
+      case N_OWN_FILE_CLOSED:
+        close(2);
+        sc.o.redirect.err.type = REPROC_REDIRECT_FILE;
+        sc.o.redirect.err.file = stderr;
+        break;
     }
   }
 
